@@ -49,6 +49,31 @@ func candidate(t string) []byte {
 	return out[:32]
 }
 
+// rejKind: the driver's own reading of WHY a string is no migration address (which stage of the specification's decoder
+// rejects it).  Not judged by anything: the checks use it to pick one rejected input per kind for the failure histories.
+func rejKind(t string) string {
+	if len(t) != 81 {
+		return "len"
+	}
+	if t[:8] != "TRANSFER" {
+		return "prefix"
+	}
+	if t[80] != '9' {
+		return "suffix"
+	}
+	body := t[8:80]
+	for i := 0; i+1 < len(body); i += 2 {
+		a, b := tryteVal(body[i]), tryteVal(body[i+1])
+		if v := a + 27*b; a == 99 || b == 99 || v < -128 || v > 127 {
+			if i < 64 {
+				return "addr-group"
+			}
+			return "cs-group"
+		}
+	}
+	return "checksum"
+}
+
 func factFor(addr []byte) M {
 	if addr == nil {
 		return M{"addr": []int{}, "hash": []int{}}
@@ -84,6 +109,8 @@ func runF(op string, in M) (M, M) {
 		out := M{"ok": err == nil && p == "", "addr": []int{}, "panic": p}
 		if err == nil && p == "" {
 			out["addr"] = vInts(d[:])
+		} else {
+			out["err"] = rejKind(t)
 		}
 		return out, factFor(candidate(t))
 	case "migration.par":
